@@ -52,21 +52,40 @@ class Universe:
         self.put_indices = put_indices or {}
         self._expected_cache = {}
 
-    # ---- from-scratch evaluation (the oracle)
+    # ---- from-scratch evaluation (the oracle): own topological evaluation of the definitions,
+    # independent of State.__getitem__ and of the DAG's pre-computed closures
+    def _order(self):
+        if getattr(self, "_topo", None) is None:
+            anc = {n: set(self.dag.direct_ancestors[n]) for n in self.dag.variables}
+            order, done = [], set()
+            while len(order) < len(anc):
+                ready = sorted(n for n in anc if n not in done and anc[n] <= done)
+                if not ready:
+                    raise RuntimeError("toy/model graph is not acyclic")
+                order += ready
+                done |= set(ready)
+            self._topo = order
+        return self._topo
+
     def expected(self, indep: dict):
         key = tdigest(*[indep[k] for k in sorted(indep)])
         e = self._expected_cache.get(key)
         if e is None:
-            fresh = State(self.dag)
-            for k, v in indep.items():
-                if v is not None:
-                    fresh[k] = copy.deepcopy(v)
-            e = {}
-            for n in self.observed:
-                try:
-                    e[n] = fresh[n]
-                except LeaspyInputError:
-                    e[n] = "INPUT_ERROR"
+            vals = {}
+            for n in self._order():
+                var = self.dag[n]
+                if n in indep:
+                    v = indep[n]
+                    vals[n] = "INPUT_ERROR" if v is None else copy.deepcopy(v)
+                elif type(var).__name__ == "Hyperparameter":
+                    vals[n] = var.value
+                elif not self.dag.direct_ancestors[n]:
+                    vals[n] = "INPUT_ERROR"
+                elif any(isinstance(vals[p], str) for p in self.dag.direct_ancestors[n]):
+                    vals[n] = "INPUT_ERROR"
+                else:
+                    vals[n] = var.compute(vals)
+            e = {n: vals[n] for n in self.observed}
             if len(self._expected_cache) > 20000:
                 self._expected_cache.clear()
             self._expected_cache[key] = e
